@@ -4,18 +4,19 @@
   audience structure of any size, any number of assertions / confirmations).
 -/
 import PysamlModel.Proofs.Sp
+import PysamlModel.Proofs.SpFactory
 
 namespace C04
 open Sp
 
-/-- Every assertion the SP can see was accepted by `_assertion` when identity is produced. -/
-theorem visible_accepted {cfg : Cfg} {env : Env} {r : Response} {o : Reported}
-    (h : process cfg env r = .identity o) :
-    ∃ rs, ∀ a ∈ visible r, ∃ v s s', checkAssertion cfg env rs v s a = .ok s' := by
-  obtain ⟨_, cf, _, rs, p, _, _, _, hv, _, _, _, _⟩ := process_identity_inv h
+/-! ### what one successful `verify()` establishes (shared by both entry points) -/
+
+/-- Every assertion the SP can see was accepted by `_assertion` when `verify()` returns a result. -/
+theorem verify_visible_accepted {cfg : Cfg} {env : Env} {rs : Bool} {st : St} {r : Response} {p : Parsed}
+    (hv : verify cfg env rs st r = .ok (some p)) :
+    ∀ a ∈ visible r, ∃ v s s', checkAssertion cfg env rs v s a = .ok s' := by
   obtain ⟨_, hp⟩ := verify_some_inv hv
   obtain ⟨⟨st1, h1, h2⟩, _⟩ := parseAssertion_inv hp
-  refine ⟨rs, ?_⟩
   intro a ha
   unfold visible at ha
   rcases List.mem_append.mp ha with hd | hpl
@@ -24,12 +25,24 @@ theorem visible_accepted {cfg : Cfg} {env : Env} {r : Response} {o : Reported}
   · obtain ⟨s, s', hs⟩ := checkAll_inv h1 a hpl
     exact ⟨false, s, s', hs⟩
 
-/-- Audience: identity is produced only if every (non-empty) AudienceRestriction of every visible
-    assertion names the provider's own entityID — for restriction lists of any length. -/
-theorem C04_audience {cfg : Cfg} {env : Env} {r : Response} {o : Reported}
+/-- Every assertion the SP can see was accepted by `_assertion` when identity is produced. -/
+theorem visible_accepted {cfg : Cfg} {env : Env} {r : Response} {o : Reported}
     (h : process cfg env r = .identity o) :
+    ∃ rs, ∀ a ∈ visible r, ∃ v s s', checkAssertion cfg env rs v s a = .ok s' := by
+  obtain ⟨_, cf, _, rs, p, _, _, _, hv, _, _, _, _⟩ := process_identity_inv h
+  exact ⟨rs, verify_visible_accepted hv⟩
+
+/-- The same for the factory entry point (`require_signature` is `want_assertions_signed` there). -/
+theorem visible_accepted_factory {cfg : Cfg} {env : Env} {r : Response} {o : Reported}
+    (h : processFactory cfg env r = .identity o) :
+    ∃ rs, ∀ a ∈ visible r, ∃ v s s', checkAssertion cfg env rs v s a = .ok s' := by
+  obtain ⟨cf, p, _, hv, _⟩ := processFactory_identity_inv h
+  exact ⟨cfg.wantAssert, verify_visible_accepted hv⟩
+
+/-- Audience, from the per-assertion acceptance. -/
+theorem audience_of_accepted {cfg : Cfg} {env : Env} {r : Response} {rs : Bool}
+    (hacc : ∀ a ∈ visible r, ∃ v s s', checkAssertion cfg env rs v s a = .ok s') :
     ∀ a ∈ visible r, ∀ c, a.conditions = some c → ∀ rs ∈ c.audiences, rs ≠ [] → ∃ x ∈ rs, pyStrip x = cfg.entityId := by
-  obtain ⟨rs, hacc⟩ := visible_accepted h
   intro a ha c hc restr hr hne
   obtain ⟨v, s, s', hs⟩ := hacc a ha
   obtain ⟨_, st1, st2, _, e2, _, _⟩ := checkAssertion_inv hs
@@ -43,12 +56,25 @@ theorem C04_audience {cfg : Cfg} {env : Env} {r : Response} {o : Reported}
   · obtain ⟨x, hx, hm⟩ := List.any_eq_true.mp h1
     exact ⟨x, hx, by simpa using hm⟩
 
-/-- Destination: over a browser binding a present Destination must be one of the provider's own
-    endpoints for the binding used. -/
-theorem C04_destination {cfg : Cfg} {env : Env} {r : Response} {o : Reported}
-    (h : process cfg env r = .identity o) (hasync : env.asynchop = true)
+/-- Audience: identity is produced only if every (non-empty) AudienceRestriction of every visible
+    assertion names the provider's own entityID — for restriction lists of any length. -/
+theorem C04_audience {cfg : Cfg} {env : Env} {r : Response} {o : Reported}
+    (h : process cfg env r = .identity o) :
+    ∀ a ∈ visible r, ∀ c, a.conditions = some c → ∀ rs ∈ c.audiences, rs ≠ [] → ∃ x ∈ rs, pyStrip x = cfg.entityId := by
+  obtain ⟨rs, hacc⟩ := visible_accepted h
+  exact audience_of_accepted hacc
+
+/-- Audience, for the factory entry point (`authn_response(...)` + `loads()` + `verify()`). -/
+theorem C04_audience_factory {cfg : Cfg} {env : Env} {r : Response} {o : Reported}
+    (h : processFactory cfg env r = .identity o) :
+    ∀ a ∈ visible r, ∀ c, a.conditions = some c → ∀ rs ∈ c.audiences, rs ≠ [] → ∃ x ∈ rs, pyStrip x = cfg.entityId := by
+  obtain ⟨rs, hacc⟩ := visible_accepted_factory h
+  exact audience_of_accepted hacc
+
+/-- Destination, from one successful `verify()`. -/
+theorem verify_destination {cfg : Cfg} {env : Env} {rs : Bool} {st : St} {r : Response} {p : Parsed}
+    (hv : verify cfg env rs st r = .ok (some p)) (hasync : env.asynchop = true)
     (d : String) (hd : r.destination = some d) (hne : d ≠ "") : d ∈ cfg.returnAddrs := by
-  obtain ⟨_, cf, _, rs, p, _, _, _, hv, _, _, _, _⟩ := process_identity_inv h
   obtain ⟨henv, _⟩ := verify_some_inv hv
   obtain ⟨_, hdest, _, _⟩ := verifyEnvelope_true_inv henv
   unfold destinationOk at hdest
@@ -56,13 +82,26 @@ theorem C04_destination {cfg : Cfg} {env : Env} {r : Response} {o : Reported}
   simp only [hasync, Bool.not_true, Bool.false_or, hd, Option.getD_some, ht] at hdest
   exact List.contains_iff_mem.mp hdest
 
-/-- Recipient: with conversation info, every bearer confirmation that is used names the provider
-    (the entityID the caller gave) or one of its consumer URLs. -/
-theorem C04_recipient {cfg : Cfg} {env : Env} {r : Response} {o : Reported}
-    (h : process cfg env r = .identity o) (hconv : env.convInfo = true) :
+/-- Destination: over a browser binding a present Destination must be one of the provider's own
+    endpoints for the binding used. -/
+theorem C04_destination {cfg : Cfg} {env : Env} {r : Response} {o : Reported}
+    (h : process cfg env r = .identity o) (hasync : env.asynchop = true)
+    (d : String) (hd : r.destination = some d) (hne : d ≠ "") : d ∈ cfg.returnAddrs := by
+  obtain ⟨_, cf, _, rs, p, _, _, _, hv, _, _, _, _⟩ := process_identity_inv h
+  exact verify_destination hv hasync d hd hne
+
+/-- Destination, for the factory entry point. -/
+theorem C04_destination_factory {cfg : Cfg} {env : Env} {r : Response} {o : Reported}
+    (h : processFactory cfg env r = .identity o) (hasync : env.asynchop = true)
+    (d : String) (hd : r.destination = some d) (hne : d ≠ "") : d ∈ cfg.returnAddrs := by
+  obtain ⟨cf, p, _, hv, _⟩ := processFactory_identity_inv h
+  exact verify_destination hv hasync d hd hne
+
+/-- Recipient, from the per-assertion acceptance. -/
+theorem recipient_of_accepted {cfg : Cfg} {env : Env} {r : Response} {rs : Bool}
+    (hacc : ∀ a ∈ visible r, ∃ v s s', checkAssertion cfg env rs v s a = .ok s') (hconv : env.convInfo = true) :
     ∀ a ∈ visible r, ∀ s, a.subject = some s → ∀ sc ∈ s.confs, bearerUsable sc = true →
       ∃ d rcp, sc.data = some d ∧ d.recipient = some rcp ∧ (env.convEntityId = some rcp ∨ rcp ∈ cfg.returnAddrs) := by
-  obtain ⟨rs, hacc⟩ := visible_accepted h
   intro a ha s hs sc hsc hus
   obtain ⟨v, st, st', hchk⟩ := hacc a ha
   obtain ⟨_, st1, st2, _, _, e3, _⟩ := checkAssertion_inv hchk
@@ -75,6 +114,23 @@ theorem C04_recipient {cfg : Cfg} {env : Env} {r : Response} {o : Reported}
   rcases hok with h1 | h1
   · exact Or.inl h1
   · exact Or.inr (List.contains_iff_mem.mp h1)
+
+/-- Recipient: with conversation info, every bearer confirmation that is used names the provider
+    (the entityID the caller gave) or one of its consumer URLs. -/
+theorem C04_recipient {cfg : Cfg} {env : Env} {r : Response} {o : Reported}
+    (h : process cfg env r = .identity o) (hconv : env.convInfo = true) :
+    ∀ a ∈ visible r, ∀ s, a.subject = some s → ∀ sc ∈ s.confs, bearerUsable sc = true →
+      ∃ d rcp, sc.data = some d ∧ d.recipient = some rcp ∧ (env.convEntityId = some rcp ∨ rcp ∈ cfg.returnAddrs) := by
+  obtain ⟨rs, hacc⟩ := visible_accepted h
+  exact recipient_of_accepted hacc hconv
+
+/-- Recipient, for the factory entry point. -/
+theorem C04_recipient_factory {cfg : Cfg} {env : Env} {r : Response} {o : Reported}
+    (h : processFactory cfg env r = .identity o) (hconv : env.convInfo = true) :
+    ∀ a ∈ visible r, ∀ s, a.subject = some s → ∀ sc ∈ s.confs, bearerUsable sc = true →
+      ∃ d rcp, sc.data = some d ∧ d.recipient = some rcp ∧ (env.convEntityId = some rcp ∨ rcp ∈ cfg.returnAddrs) := by
+  obtain ⟨rs, hacc⟩ := visible_accepted_factory h
+  exact recipient_of_accepted hacc hconv
 
 /-- Matching is equality after `str.strip`: an Audience that differs from the entityID after
     stripping never satisfies a restriction (no prefix / suffix / case leniency). -/
@@ -140,5 +196,14 @@ example : (process okCfg okEnv okResp).isIdentity = true := by decide
 example : process okCfg okEnv { okResp with assertions := [{ okAssertion with
     conditions := some { nooa := some 200, audiences := [["me"], ["other"]] } }] } = .rejected .audience := by decide
 example : process okCfg okEnv { okResp with destination := some "https://evil" } = .noIdentity := by decide
+
+/-! Non-vacuity for the factory entry point: the same Response is accepted (so the hypotheses of the `*_factory`
+    theorems are satisfiable), also without a Response signature, which the factory cannot demand; the foreign
+    audience and the foreign Destination are refused there too. -/
+example : (processFactory okCfg okEnv okResp).isIdentity = true := by decide
+example : (processFactory okCfg okEnv { okResp with sig := .absent }).isIdentity = true := by decide
+example : processFactory okCfg okEnv { okResp with assertions := [{ okAssertion with
+    conditions := some { nooa := some 200, audiences := [["me"], ["other"]] } }] } = .rejected .audience := by decide
+example : processFactory okCfg okEnv { okResp with destination := some "https://evil" } = .noIdentity := by decide
 
 end C04
